@@ -45,4 +45,12 @@ theorem worker_error_policy : Gen.WORKER_MSG_ERROR_POLICY = ["log", "log"] := by
     (`Pearl.tryUpdateActive` / `Driver.afterWrite`: `count ≥ maxCount`, `size ≥ maxSize`, age above the debounce interval) -/
 theorem rotation_test : Gen.ROTATE_TEST = [">=", "||", ">=", ">"] := by decide
 
+/-- every path that leaves a deferred index dump registered arms a deadline: the re-created record of
+    `process_deferred_blob_index_dump` (since the repair of E22), its not-yet-due branch, and `defer_blob_indexes_dump`
+    (unconditionally, for a new and for a refreshed record) - the loop is `WorkerTimed.Variant.repaired`, for which
+    `deferred_has_deadline` is proved -/
+theorem deferred_rerecord_arms_deadline :
+    Gen.DEFERRED_ARMS_DEADLINE = ["rerecord:update_deadline", "not-due:update_deadline", "defer:update_deadline"] := by
+  decide
+
 end Pearl.Tie.C13
